@@ -117,24 +117,31 @@ Definition move_loc (from to : loc) (h : option handle) : option handle :=
   | None => None
   end.
 
+(* the environment: is the system temporary folder on another file system than the output folder (`xdev`),
+   and is the temporary file created in the folder of the target (`same_dir`: a translated fact about how the
+   temporary name is derived).  A rename across file systems fails (EXDEV); a file in the folder of the target
+   is on the target's file system whatever `xdev` says. *)
+Record env := { xdev : bool; same_dir : bool }.
+Definition cross_device (e : env) : bool := (xdev e && negb (same_dir e))%bool.
+
 (* the interpreter of the translated protocol; returns the state and whether an exception escapes *)
-Fixpoint exec (p : prog) (chunks : list nat) (sched : list step) (fl : failure) (st : state) : state * bool :=
+Fixpoint exec (p : prog) (chunks : list nat) (sched : list step) (fl : failure) (e : env) (st : state) : state * bool :=
   match p with
   | PSkip => (st, false)
   | PSeq a b =>
-      let '(st1, raised) := exec a chunks sched fl st in
-      if raised then (st1, true) else exec b chunks sched fl st1
+      let '(st1, raised) := exec a chunks sched fl e st in
+      if raised then (st1, true) else exec b chunks sched fl e st1
   | POpen body =>                                   (* with open(name, 'w') as f: body *)
       match fl with
       | AtOpen => (st, true)
       | _ =>
-          let '(st1, r1) := exec body chunks sched fl (open_file st) in
+          let '(st1, r1) := exec body chunks sched fl e (open_file st) in
           let '(st2, r2) := close fl st1 in
           (st2, (r1 || r2)%bool)
       end
   | PTry body handler =>                            (* try: body / except BaseException: handler; raise *)
-      let '(st1, raised) := exec body chunks sched fl st in
-      if raised then (fst (exec handler chunks sched fl st1), true) else (st1, false)
+      let '(st1, raised) := exec body chunks sched fl e st in
+      if raised then (fst (exec handler chunks sched fl e st1), true) else (st1, false)
   | PWrite =>                                       (* write(f): the generator's write calls *)
       match hnd st with
       | Some h => let '(o, raised) := write_loop chunks sched fl (opened st h) in (still_open o, raised)
@@ -144,11 +151,29 @@ Fixpoint exec (p : prog) (chunks : list nat) (sched : list step) (fl : failure) 
       match fl with
       | AtReplace => (st, true)
       | _ =>
+          if cross_device e then (st, true)            (* EXDEV *)
+          else
           match temp (disk st) with
           | Some c => ({| disk := {| target := Some c; temp := None |};
                           hnd := move_loc AtTemp AtTarget (move_loc AtTarget Unlinked (hnd st)); ev := ev st |}, false)
           | None => (st, true)
           end
+      end
+  | PMove =>                                        (* shutil.move(tmp, file_name) *)
+      match temp (disk st) with
+      | None => (st, true)
+      | Some c =>
+          if (cross_device e || match fl with AtReplace => true | _ => false end)%bool then
+            (* os.rename failed: copy to the target (opened for writing: truncated, then filled by a low-level
+               write event of its own), then unlink the temporary file *)
+            if fails fl (ev st) then
+              ({| disk := {| target := Some (if leaves_part fl then firstn 1 c else []); temp := Some c |};
+                  hnd := move_loc AtTarget Unlinked (hnd st); ev := S (ev st) |}, true)
+            else
+              ({| disk := {| target := Some c; temp := None |};
+                  hnd := move_loc AtTemp Unlinked (move_loc AtTarget Unlinked (hnd st)); ev := S (ev st) |}, false)
+          else ({| disk := {| target := Some c; temp := None |};
+                   hnd := move_loc AtTemp AtTarget (move_loc AtTarget Unlinked (hnd st)); ev := ev st |}, false)
       end
   | PRemoveTmp =>                                   (* with suppress(OSError): os.remove(tmp) *)
       ({| disk := {| target := target (disk st); temp := None |};
@@ -157,15 +182,16 @@ Fixpoint exec (p : prog) (chunks : list nat) (sched : list step) (fl : failure) 
 
 (* one run of an exporter; returns the file system and whether it raised *)
 Definition init (f : fs) : state := {| disk := f; hnd := None; ev := 0 |}.
-Definition run (p : prog) (f : fs) (chunks : list nat) (sched : list step) (fl : failure) : fs * bool :=
-  let '(st, raised) := exec p chunks sched fl (init f) in (disk st, raised).
-Definition export (f : fs) (chunks : list nat) (sched : list step) (fl : failure) : fs * bool :=
-  run protocol f chunks sched fl.
+Definition run (p : prog) (e : env) (f : fs) (chunks : list nat) (sched : list step) (fl : failure) : fs * bool :=
+  let '(st, raised) := exec p chunks sched fl e (init f) in (disk st, raised).
+(* `xd`: the system temporary folder is on another file system than the output folder *)
+Definition export (xd : bool) (f : fs) (chunks : list nat) (sched : list step) (fl : failure) : fs * bool :=
+  run protocol {| xdev := xd; same_dir := temp_same_dir |} f chunks sched fl.
 
 (* gen_file: skip when the target exists and --overwrite is not given *)
-Definition gen_file (overwrite : bool) (f : fs) (chunks : list nat) (sched : list step) (fl : failure) : fs * bool :=
+Definition gen_file (xd overwrite : bool) (f : fs) (chunks : list nat) (sched : list step) (fl : failure) : fs * bool :=
   if (overwrite || negb (skip_if_target_exists && match target f with Some _ => true | None => false end))%bool
-  then export f chunks sched fl else (f, false).
+  then export xd f chunks sched fl else (f, false).
 
 Definition complete (chunks : list nat) : list piece := map Chunk chunks.
 
